@@ -1022,7 +1022,11 @@ func c19lMatrix(ctx *RunCtx, k *c19lCase) {
 	for _, p := range k.Authn {
 		ms, _ := c19lDocSet(k.Doc, c19lMethodsName[p.Ep])
 		algs, _ := c19lDocSet(k.Doc, c19lSigAlgsName[p.Ep])
-		d[fmt.Sprintf("authn probe %s %s: method advertised=%v alg advertised=%v -> authenticated=%v", strings.ToLower(p.Ep[1:]), p.Method, c19lIn(p.Method, ms), c19lIn(p.Alg, algs), p.OK)]++
+		reg := "no alg registered"
+		if p.ClAlg != "" {
+			reg = fmt.Sprintf("registered alg advertised=%v is the one used=%v", c19lIn(p.ClAlg, algs), p.ClAlg == p.Alg)
+		}
+		d[fmt.Sprintf("authn probe %s %s (%s): method advertised=%v alg advertised=%v -> authenticated=%v", strings.ToLower(p.Ep[1:]), p.Method, reg, c19lIn(p.Method, ms), c19lIn(p.Alg, algs), p.OK)]++
 	}
 	for _, p := range k.Art {
 		ak, _ := c19lDocSet(k.Doc, c19lKeyName[p.Art])
